@@ -1,6 +1,7 @@
 package storagesc
 
 import (
+	"encoding/json"
 	"time"
 
 	"0chain.net/chaincore/block"
@@ -113,10 +114,47 @@ func vWNew(n int, sender string, value currency.Coin) *vWorld {
 		}
 		sp := newStakePool()
 		sp.Settings = e.StakePoolSettings
-		sp.Pools["e" + id[1:]] = &stakepool.DelegatePool{DelegateID: "e" + id[1:], Balance: 1000 * x10, Status: spenum.Active, StakedAt: vWNow}
+		sp.Pools["e"+id[1:]] = &stakepool.DelegatePool{DelegateID: "e" + id[1:], Balance: 1000 * x10, Status: spenum.Active, StakedAt: vWNow}
 		if err := sp.Save(spenum.Blobber, id, w.balances); err != nil {
 			panic(err)
 		}
 	}
 	return w
+}
+
+// vWAlloc creates an allocation (1 data + 1 parity shard on blobbers 0 and 1, size 2 GB) owned
+// by owner through the real new_allocation_request, funded with lock tokens; returns its id.
+func (w *vWorld) vWAlloc(owner, ownerPK string, lock currency.Coin, readPrice currency.Coin) string {
+	if readPrice > 0 {
+		for _, id := range vWBlobbers[:2] {
+			sn, err := getBlobber(id, w.balances)
+			if err != nil {
+				panic(err)
+			}
+			_ = sn.mustUpdateBase(func(b *storageNodeBase) error {
+				b.Terms.ReadPrice = readPrice
+				return nil
+			})
+			if _, err := w.balances.InsertTrieNode(sn.GetKey(), sn); err != nil {
+				panic(err)
+			}
+		}
+	}
+	req := newAllocationRequest{DataShards: 1, ParityShards: 1, Size: 2 * vWGB, Owner: owner, OwnerPublicKey: ownerPK,
+		Blobbers: vWBlobbers[:2], BlobberAuthTickets: []string{"", ""},
+		ReadPriceRange: PriceRange{Min: 0, Max: 100 * x10}, WritePriceRange: PriceRange{Min: 0, Max: 100 * x10}}
+	input, err := json.Marshal(&req)
+	if err != nil {
+		panic(err)
+	}
+	t := &transaction.Transaction{}
+	t.ClientID = owner
+	t.ToClientID = ADDRESS
+	t.Value = lock
+	t.CreationDate = vWNow
+	t.Hash = "a110c00000000000000000000000000000000000000000000000000000000001"
+	if _, err := w.ssc.newAllocationRequest(t, input, w.balances, nil); err != nil {
+		panic("world: new allocation: " + err.Error())
+	}
+	return t.Hash
 }
